@@ -343,6 +343,7 @@ def classify(case, impl):
     cfg = case.get("config") or {}
     tags = [
         f"kind={case.get('kind')}",
+        "k_int " + type(case["k"]["int"]).__name__ + ("/" + case["k_types"]["int"] if case.get("k_types") else ""),
         *([f"history changes {case['history']} ({case['pre'].get('how')})"] if case.get("history") else []),
         *([f"tiny supercooling eps={case['eps']}"] if case.get("eps") else []),
         "arrangement=" + cfg.get("snowfall_parameters", {}).get("vial_arrangement", "square"),
@@ -456,7 +457,7 @@ def _structured(rng, tier):
                 shape = [1, 1, 1]
         if shape[0] * shape[1] * shape[2] <= big:
             break
-    k = {"int": rng.choice([0, 5, 20, 50.5]), "ext": rng.choice([0, 5, 20, 100, 300 if pallet else 20])}
+    k = {"int": rng.choice([0, 5, 20, 50.5, 40, 20.0]), "ext": rng.choice([0, 5, 20, 100, 300 if pallet else 20, 40.0])}
     if pallet:
         k["ext"] = rng.choice([50, 100, 300, 500])
         if rng.random() < 0.3:
@@ -503,7 +504,7 @@ def _structured(rng, tier):
     return case
 
 
-def _history(rng, tier, force=None):
+def _history(rng, tier, force=None, how=None):
     """the observed run is the SECOND run of one object whose settings were changed in between
     (cooling rate only / t_tot / a hold duration / dt / T_k_0 / shelf coefficient): every
     step must follow the program and coefficients in force for THAT run"""
@@ -524,7 +525,7 @@ def _history(rng, tier, force=None):
         c["N_vials"] = [a, b, 1]
         while stability(c) > 0.9:
             c["dt"] = c["dt"] / 2
-    pre = {"how": rng.choice(["mutate", "assign"])}
+    pre = {"how": how or rng.choice(["mutate", "assign"])}
     poc = json.loads(json.dumps(oc))
     if what in ("rate", "rate+dt"):
         poc["rate"] = oc["rate"] * rng.choice([1.25, 0.8, 2.0, 0.5])
@@ -609,6 +610,40 @@ def _subset(rng, tier):
     return c
 
 
+def _intcoef(rng, tier, j=None):
+    """heat-transfer coefficients given as INTEGERS (Python int, numpy integer) and as floats, with
+    k_int × neighbour count beyond 127 and 32767: the conductances must be the real products"""
+    combos = [([4, 4, 1], "square", 40), ([3, 3, 2], "hexagonal", 20), ([4, 4, 1], "square", 200),
+              ([3, 3, 1], "square", 10000), ([2, 3, 3], "square", 40), ([3, 4, 1], "hexagonal", 25)]
+    shape, arr, kint = combos[j % len(combos)] if j is not None else rng.choice(combos)
+    k = {"int": kint, "ext": rng.choice([20, 40, 130])}
+    if shape[2] == 1:
+        k["s0"] = rng.choice([200, 500])
+    c = dict(kind="integer-coefficients", N_vials=shape, k=k, dt=1.0, seed=_seed(rng), seed_v=_seed(rng),
+             opcond=dict(t_tot=300.0, start=5.0, stop=-40.0, rate=0.2, holds=None, cnTemp=None), T0=None,
+             config=({"snowfall_parameters": {"vial_arrangement": "hexagonal"}} if arr == "hexagonal" else None),
+             initIce="indirect", threshold=0.9)
+    t = rng.choice([None, None, "int32", "int64", "float64"]) if j is None or j >= 4 else None
+    if t:
+        c["k_types"] = {key: t for key in k}
+    while stability(c) > 0.9:
+        c["dt"] = c["dt"] / 2
+    c["opcond"]["t_tot"] = c["dt"] * 300
+    return c
+
+
+def _last_step(rng, tier):
+    """controlled nucleation in the FINAL time step (t_tot = end of the hold): the vials nucleate in
+    step N-1, their nucleation time is the end of that step and no recorded column shows their ice"""
+    hold = rng.choice([-8.0, -6.5])
+    oc = dict(t_tot=10000.0, start=5.0, stop=-40.0, rate=rng.choice([0.1, 0.05]),
+              holds=[[hold, rng.choice([100.0, 60.0])]], cnTemp=hold)
+    oc["t_tot"] = float(fu.make_opcond(oc).cnt)
+    return dict(kind="last-step-nucleation", N_vials=[rng.randint(1, 3), rng.randint(1, 3), 1],
+                k={"int": 20, "ext": 20, "s0": rng.choice([300, 500])}, dt=1.0, seed=_seed(rng), seed_v=_seed(rng),
+                opcond=oc, T0=None, config=None, initIce=rng.choice(["indirect", "direct"]), threshold=0.9)
+
+
 def _late_cn(rng, tier):
     """controlled nucleation that triggers AFTER some vials have nucleated spontaneously: at the
     trigger step only the still-liquid supercooled vials may nucleate"""
@@ -628,11 +663,16 @@ def cases(rng, tier):
         if j < 2:                      # vial seed 0 / run seed 0 with vial-to-vial variability
             c["seed_v"], c["seed"] = (0, 5) if j == 0 else (7, 0)
         yield c
-    n, nh, nt = (44, 12, 6) if tier == "quick" else (1300, 150, 50)
+    for j in range(6 if tier == "quick" else 60):
+        yield _intcoef(rng, tier, j if j < 6 else None)
+    for _ in range(2 if tier == "quick" else 20):
+        yield _last_step(rng, tier)
+    n, nh, nt = (40, 12, 6) if tier == "quick" else (1300, 150, 50)
     for _ in range(n):
         yield _structured(rng, tier)
     for j in range(nh):
-        yield _history(rng, tier, force="rate_fine" if j < 4 else "shape" if j < 6 else None)
+        yield _history(rng, tier, force="rate_fine" if j < 4 else "shape" if j < 6 else None,
+                       how=("mutate" if j % 2 == 0 else "assign") if j < 4 else None)
     for _ in range(4 if tier == "quick" else 40):
         yield _subset(rng, tier)
     for _ in range(nt):
